@@ -177,6 +177,48 @@ def check_M1(ctx, facts):
         ctx.ob('C16.M1', 'publish|before-carried-update', every, site(body),
                'the carried set is only replaced after the change was published' if every else
                'the carried set can be replaced without the change having been published')
+    # an iteration may bypass the differences only when the two sets the differences are computed over are equal
+    dblocks = [db for db, _dt in diffs]
+    R = body.reachable_from([first], avoid=dblocks)
+    if hb in R:
+        cur_sets = set()
+        for db, dt in diffs:
+            for a in dt['args'][:2]:
+                for r in referent_roots(body, op_local(a)):
+                    if r not in carried_sets and ty_head(body.local_ty(r)) == 'alloc::collections::btree::set::BTreeSet':
+                        cur_sets.add(r)
+        skips_ok = True
+        why_skip = ''
+        # switch blocks inside R one of whose successors reaches the loop header without the differences while another reaches a difference
+        for sb in sorted(R):
+            t = body.term(sb)
+            if t['k'] != 'switch':
+                continue
+            succ = body.succ(sb)
+            to_hdr = [s for s in succ if hb in body.reachable_from([s], avoid=dblocks)]
+            to_diff = [s for s in succ if set(dblocks) & body.reachable_from([s], avoid=[hb])]
+            if not to_hdr or not to_diff or not all(body.dominates(sb, db) for db in dblocks):
+                continue
+            skip_targets = [s for s in to_hdr if not (set(dblocks) & body.reachable_from([s], avoid=[hb]))]
+            if not skip_targets:
+                continue
+            # the condition
+            ok_here = False
+            for c in all_comparisons(body):
+                if c['dest'] != op_local(t['discr']) or c['rel'] not in ('==', '!=') or c['lhs'] is None or c['rhs'] is None:
+                    continue
+                ra, rb = set(referent_roots(body, c['lhs'])), set(referent_roots(body, c['rhs']))
+                if (ra & carried_sets and rb & cur_sets) or (rb & carried_sets and ra & cur_sets):
+                    tm = {int(v): tb for v, tb in t['targets']}
+                    eq_t = (t['otherwise'] if 0 in tm else tm.get(1)) if c['rel'] == '==' else tm.get(0, t['otherwise'])
+                    ok_here = eq_t in skip_targets and len(skip_targets) == 1
+            if not ok_here:
+                skips_ok = False
+                why_skip = 'line %s' % t.get('cs')
+        ctx.ob('C16.M1', 'skip-only-when-sets-equal', skips_ok, site(body),
+               'a snapshot is skipped only on equality of the carried and the current (id, address) sets' if skips_ok else
+               'a snapshot can be skipped (%s) on a condition other than equality of the two sets the differences are computed over: a member '
+               'that changed address under the same id (restart) is reported neither as left nor as joined' % why_skip)
     for f in ('left', 'joined'):
         if f not in seen_fields:
             ctx.bad('C16.M1', f + '|push', site(body), 'no push into MembershipChange.%s found: %s nodes are never reported' % (f, 'departed' if f == 'left' else 'joined'))
